@@ -31,6 +31,38 @@ class varbyteint_to_int:
         return (n, wire.compact_size_len(n))
 
 
+def _vbi_form_case(first, size):
+    """Every encoding a peer can send, not only the shortest one: marker 0xfd/0xfe/0xff followed by ANY 2/4/8 payload bytes (and anything after
+    them) decodes to the little-endian value of exactly those payload bytes and reports 1 + size bytes consumed - the protocol definition of the
+    three long forms, which the canonical-input contract above reaches only for payloads the shortest-form encoder produces."""
+    name = 'form-%02x' % first
+
+    def call(payload, rest):
+        return {'byteint': bytes([first]) + payload + rest}
+
+    def result_is(payload, rest):
+        return (wire.from_le(payload), 1 + size)
+
+    d = {'params': {'payload': Bytes(size), 'rest': Bytes}, 'call': call, 'result_is': result_is,
+         '__doc__': 'varbyteint_to_int on marker 0x%02x + any %d payload bytes (+ anything): little-endian value of the payload, %d bytes consumed' % (first, size, 1 + size)}
+    return contract('bitcoinlib.encoding.varbyteint_to_int', case=name, props=('C18', 'C06'))(type('vbi_form_%02x' % first, (), d))
+
+
+VARBYTEINT_FORM_CASES = [_vbi_form_case(f, n)._contract.key for f, n in ((0xfd, 2), (0xfe, 4), (0xff, 8))]
+
+
+@contract('bitcoinlib.encoding.varbyteint_to_int', case='single-byte', props=('C18', 'C06'))
+class varbyteint_to_int_single:
+    """A first byte below 0xfd is the value itself, one byte consumed, whatever follows."""
+    params = {'first': Int(0, 252), 'rest': Bytes}
+
+    def call(first, rest):
+        return {'byteint': bytes([first]) + rest}
+
+    def result_is(first, rest):
+        return (first, 1)
+
+
 @contract('bitcoinlib.encoding.varstr', props=('C18', 'C01', 'C06'))
 class varstr:
     """var_str: CompactSize length prefix followed by the data, for every byte string."""
